@@ -313,7 +313,9 @@ def signature(case, why):
         return "panic:handleBlockStream"
     if case[-1].get("status") == "hang":
         kind = h.get("case", "//").split("/")[2].split("@")[0] if h["e"] == "BStart" else "stream"
-        return "download-hangs:" + ("handler-error-with-full-pipeline" if kind == "flood" else kind)
+        return "download-hangs:" + {"flood": "handler-error-with-full-pipeline",
+                                     "flood-badblock": "decoder-abort-with-many-batches-left",
+                                     "flood-orphan": "handler-abort-with-many-batches-left"}.get(kind, kind)
     if h["e"] == "SStart":
         return "stream:" + str(case[-1].get("status"))
     if h["e"] == "LStart":
